@@ -13,7 +13,7 @@ META = {
     "outside": profiles.OUTSIDE,
 }
 
-REQUIRED_COVERS = {"any": profiles.REQUIRED["C14"] + ["second-run", "backward-logs"]}
+REQUIRED_COVERS = {"any": profiles.REQUIRED["C14"] + ["second-run", "backward-logs", "continued-run"]}
 
 CROSSCHECK = {"thorough": 8}
 
@@ -25,6 +25,16 @@ def sim(p, ctx):
 
 def obligations(tier, seed):
     return profiles.obligations_for("C14", tier)
+
+
+def sim_history(p, ctx):
+    """The relation (with its temporal clauses, judged on the whole logs) across a run that is stopped and continued."""
+    from props.simcore import run_sim_history
+
+    M = run_sim_history(p, ctx, p["mode"])
+    if M.exc is None:
+        oracles.c14(M, ctx)
+        ctx.cover("continued-run")
 
 
 def repeat(p, ctx):
@@ -59,7 +69,7 @@ def backward(p, ctx):
         ok, r = ctx.call(M.project.backward_simulate, reverse_log_information=bool(p["rev"]), **sim_kwargs(M))
     M.obs = Observer(M)  # no live snapshots: the oracle judges the logs
     if ok:
-        oracles.c14(M, ctx)
+        oracles.c14(M, ctx, logs_in_run_order=not p["rev"])
         ctx.cover("backward-logs")
     ctx.sig = (concrete_sig(M), p["rev"])
 
@@ -133,6 +143,10 @@ def obligations(tier, seed):
     for ob in list(obs):
         if "/fs" in ob["name"] and ("wps=2" in ob["name"] or thorough):
             obs.append(dict(ob, harness="repeat", name="repeat/" + ob["name"]))
+    # a run that is stopped and continued (in memory and through a file) while a component has FINISHED and NONE tasks only
+    f3 = [ob for ob in profiles.p_product("F3", thorough, timeout=900 if thorough else 150) if "wps=2" in ob["name"] and ("wprule=0" in ob["name"] or thorough)]
+    nr = {"cap0": (1, 2), "cap1": (1, 2), "fs0": (1, 1), "fs1": (1, 1), "z0": (1, 1), "z1": (1, 1)}
+    obs += [dict(ob, engine="zsym") for ob in profiles.with_history(f3, "resume", 5, nr) + profiles.with_history([ob for ob in f3 if "/fs" in ob["name"]], "json-resume", 5, nr)]
     # a worker with a quality skill (the component's error counter rises) and a component with two parents, backward
     for rev in (0, 1):
         spec = {"tasks": [{"w": "$w0", "comp": 0}, {"w": "$w1", "comp": 1}, {"w": "$w2", "comp": 2}], "edges": [[2, 0, 0], [2, 1, 0]],
